@@ -32,6 +32,9 @@ pub struct Direct {
     /// peer, e.g. a proxy that says `{"can_execute":true}` to whoever asks. Nothing asks unless the contract
     /// under test does.
     pub peers: std::collections::BTreeMap<String, Vec<(String, Vec<u8>)>>,
+    /// what the staking module reports for the contract under test: (validator, accumulated rewards) of its
+    /// delegations (each of 1000 units of the bonded denom `uatom`); empty: it has delegated nothing
+    pub delegations: Vec<(String, Vec<Coin>)>,
     pub calls_ok: u64,
     pub calls_err: u64,
     pub calls_panic: u64,
@@ -66,6 +69,7 @@ impl Direct {
             contract,
             chain_admin: None,
             peers: Default::default(),
+            delegations: vec![],
             calls_ok: 0,
             calls_err: 0,
             calls_panic: 0,
@@ -117,6 +121,11 @@ impl Direct {
         let admin = self.chain_admin.clone();
         let creator = self.api.addr_make("creator");
         let peers = self.peers.clone();
+        if !self.delegations.is_empty() {
+            let validators: Vec<cosmwasm_std::Validator> = self.delegations.iter().map(|(v, _)| cosmwasm_std::Validator::create(v.clone(), cosmwasm_std::Decimal::percent(5), cosmwasm_std::Decimal::percent(20), cosmwasm_std::Decimal::percent(1))).collect();
+            let delegations: Vec<cosmwasm_std::FullDelegation> = self.delegations.iter().map(|(v, rewards)| cosmwasm_std::FullDelegation::create(me.clone(), v.clone(), Coin::new(1000u128, "uatom"), Coin::new(1000u128, "uatom"), rewards.clone())).collect();
+            q.staking.update("uatom", &validators, &delegations);
+        }
         q.update_wasm(move |w| match w {
             cosmwasm_std::WasmQuery::Smart { contract_addr, msg } if peers.contains_key(contract_addr) => {
                 let text = String::from_utf8_lossy(msg.as_slice()).to_string();
